@@ -1,7 +1,7 @@
 """C07 — graph scalars: honest approx flag, order and zero, lossy casts, representation invariant, operator consistency."""
 import itertools
 
-from .. import hir, rops, rencap, paths, ceval
+from .. import hir, rops, rencap, paths, ceval, minirust
 from ..controls import fixture
 
 DY = 'scalar::dyadic::Dyadic'
@@ -15,6 +15,11 @@ CMP = '<scalar::dyadic::Dyadic as std::cmp::Ord>::cmp'
 
 class Unk(Exception):
     pass
+
+
+class _Ret(Exception):
+    def __init__(self, v):
+        self.v = v
 
 
 ORD = {'Less': -1, 'Equal': 0, 'Greater': 1}
@@ -63,14 +68,42 @@ def abs_eval_cmp(f, case):
             for s in st[:-1]:
                 if s.get('k') == 'Let' and s['pat'].get('k') == 'Bind' and s.get('init') is not None:
                     env[s['pat']['id']] = ev(s['init'])
+                elif hir.strip(s).get('k') in ('If', 'Ret', 'Match', 'Block'):
+                    ev(s)            # statement position: only its early returns matter
                 else:
                     raise Unk('statement %s' % hir.pp(s)[:40])
             return ev(st[-1])
         if k == 'If':
             c = ev(e['cond'])
+            if not isinstance(c, bool):
+                raise Unk('condition %s' % hir.pp(e['cond'])[:40])
             if e.get('else') is None:
-                raise Unk('if without else')
+                return ev(e['then']) if c else None
             return ev(e['then'] if c else e['else'])
+        if k == 'Match':
+            v = ev(e['scrut'])
+            for a in e['arms']:
+                pt = a['pat']
+                pk = pt.get('k')
+                if a.get('guard') is not None:
+                    raise Unk('match guard')
+                if pk == 'Wild' or (pk == 'Bind' and pt.get('sub') is None):
+                    if pk == 'Bind':
+                        env[pt['id']] = v
+                    return ev(a['body'])
+                alts = pt['sub'] if pk == 'Or' else [pt]
+                hit = False
+                for q in alts:
+                    qp = (q['res'].get('path') or '') if q.get('k') == 'Path' else None
+                    if q.get('k') == 'Lit' and str(q.get('v')).startswith('Bool('):
+                        hit = hit or str(q['v']).startswith('Bool(true') == v
+                    elif qp and qp.rsplit('::', 1)[-1] in ORD and 'Ordering' in qp:
+                        hit = hit or ORD[qp.rsplit('::', 1)[-1]] == v
+                    else:
+                        raise Unk('pattern %s' % hir.pp(q)[:40])
+                if hit:
+                    return ev(a['body'])
+            raise Unk('no arm matched')
         if k == 'Unary' and e['op'] == 'Not':
             return not ev(e['e'])
         if k == 'Binary' and e['op'] in ('And', 'Or'):
@@ -108,13 +141,33 @@ def abs_eval_cmp(f, case):
                 v = ev(e['recv'])
                 if isinstance(v, int) and not isinstance(v, bool):
                     return -v
-            if n == 'then' or n == 'then_with':
-                raise Unk('Ordering::then')
+            if n in ('then', 'then_with') and len(e['args']) == 1:
+                v = ev(e['recv'])
+                if isinstance(v, int) and not isinstance(v, bool):
+                    if v != 0:
+                        return v
+                    a = hir.strip(e['args'][0])
+                    if n == 'then':
+                        return ev(a)
+                    if a.get('k') == 'Closure' and not a['params']:
+                        return ev(a['body'])
+            if n in ('is_lt', 'is_le', 'is_gt', 'is_ge', 'is_eq', 'is_ne') and not e['args']:
+                v = ev(e['recv'])
+                if isinstance(v, int) and not isinstance(v, bool):
+                    return {'is_lt': v < 0, 'is_le': v <= 0, 'is_gt': v > 0, 'is_ge': v >= 0, 'is_eq': v == 0, 'is_ne': v != 0}[n]
             raise Unk('call %s' % hir.pp(e)[:50])
         if k == 'Ret':
-            raise Unk('early return')
+            if e.get('e') is None:
+                raise Unk('bare return')
+            raise _Ret(ev(e['e']))
         raise Unk('%s' % k)
-    return ev(f['hir'])
+    try:
+        r = ev(f['hir'])
+    except _Ret as ex:
+        r = ex.v
+    if not isinstance(r, int) or isinstance(r, bool):
+        raise Unk('result %r' % (r,))
+    return r
 
 
 def cmp_cases():
@@ -151,7 +204,7 @@ def d2_order(f):
             got = abs_eval_cmp(f, case)
             res.append(((a, b, er, vr), got == want, got, want, None))
         except Unk as ex:
-            res.append(((a, b, er, vr), False, None, want, 'construct not understood by the abstract evaluator: %s' % ex))
+            res.append(((a, b, er, vr), None, None, want, 'construct not understood by the abstract evaluator: %s' % ex))
     return res
 
 
@@ -475,6 +528,121 @@ def mul_table(f):
     return table, problems
 
 
+class Sym(minirust.Obj):
+    """an integer polynomial in commuting symbols: the coefficients of the two operands of the Z[omega] product"""
+
+    def __init__(self, terms=None):
+        self.terms = dict((m, c) for m, c in (terms or {}).items() if c)
+        minirust.Obj.__init__(self, 'Dyadic', {'is_zero': lambda a: not self.terms, 'clone': lambda a: self, 'copied': lambda a: self, 'cloned': lambda a: self,
+                                               'neg': lambda a: -self, 'add': lambda a: self + a[0], 'mul': lambda a: self * a[0], 'sub': lambda a: self - a[0]})
+
+    @staticmethod
+    def var(name):
+        return Sym({(name,): 1})
+
+    @staticmethod
+    def lift(x):
+        if isinstance(x, Sym):
+            return x
+        if isinstance(x, int) and not isinstance(x, bool):
+            return Sym({(): x})
+        raise TypeError('Sym with %r' % (x,))
+
+    def __add__(self, o):
+        o = Sym.lift(o)
+        t = dict(self.terms)
+        for m, c in o.terms.items():
+            t[m] = t.get(m, 0) + c
+        return Sym(t)
+    __radd__ = __add__
+
+    def __neg__(self):
+        return Sym(dict((m, -c) for m, c in self.terms.items()))
+
+    def __sub__(self, o):
+        return self + (-Sym.lift(o))
+
+    def __mul__(self, o):
+        o = Sym.lift(o)
+        t = {}
+        for m1, c1 in self.terms.items():
+            for m2, c2 in o.terms.items():
+                m = tuple(sorted(m1 + m2))
+                t[m] = t.get(m, 0) + c1 * c2
+        return Sym(t)
+    __rmul__ = __mul__
+
+    def __eq__(self, o):
+        try:
+            return self.terms == Sym.lift(o).terms
+        except TypeError:
+            return False
+
+    def __ne__(self, o):
+        return not self == o
+    __hash__ = None
+
+    def __repr__(self):
+        return ' + '.join('%d*%s' % (c, '.'.join(m) or '1') for m, c in sorted(self.terms.items())) or '0'
+
+
+def mul_semantics(f):
+    """Evaluate the reference Z[omega] product on symbolic coefficients (a0..a3) x (b0..b3), for every pattern of vanishing coefficients.
+    returns (table, zero_ok, err): table (i, j) -> [(index, coefficient)] from the generic run; zero_ok False when a run with some
+    coefficients zero differs from the generic result specialised to it; err = reason the evaluation could not be carried out."""
+    ps = [p for p in f['params'] if p.get('k') == 'Bind']
+    if len(ps) != 2:
+        return None, None, 'two operands expected'
+    host = {}
+    for c in hir.calls(f['hir']):
+        cal = hir.callee(c) or ''
+        if c.get('k') == 'Call' and cal.endswith('::zero') and not c['args']:
+            t = (c.get('ty') or '').replace('&', '').strip()
+            if t.endswith('Scalar4'):
+                host[cal] = lambda a: [[Sym(), Sym(), Sym(), Sym()]]
+            elif t.endswith('Dyadic'):
+                host[cal] = lambda a: Sym()
+
+    def run(za, zb):
+        it = minirust.Interp(fuel=20000)
+        it.host_fns = host
+        A = [[Sym() if i in za else Sym.var('a%d' % i) for i in range(4)]]
+        B = [[Sym() if j in zb else Sym.var('b%d' % j) for j in range(4)]]
+        env = {ps[0]['id']: A, ps[1]['id']: B}
+        try:
+            r = it.ev(f['hir'], env)
+        except minirust._Return as ex:
+            r = ex.v
+        if isinstance(r, tuple) and len(r) == 3 and r[0] == 'ctor':
+            r = list(r[2])
+        if not (isinstance(r, list) and len(r) == 1 and isinstance(r[0], list) and len(r[0]) == 4):
+            raise minirust.NoEval('result is not a coefficient array: %r' % (r,))
+        return [Sym.lift(x) for x in r[0]]
+    try:
+        gen = run((), ())
+        table = {}
+        for k, poly in enumerate(gen):
+            for m, c in poly.terms.items():
+                if len(m) == 2 and m[0][0] == 'a' and m[1][0] == 'b':
+                    table.setdefault((int(m[0][1]), int(m[1][1])), []).append((k, c))
+                else:
+                    table.setdefault(('other', m), []).append((k, c))
+        zero_ok = True
+        bad = None
+        for za in itertools.chain.from_iterable(itertools.combinations(range(4), n) for n in range(5)):
+            for zb in itertools.chain.from_iterable(itertools.combinations(range(4), n) for n in range(5)):
+                if not za and not zb:
+                    continue
+                got = run(za, zb)
+                dead = set('a%d' % i for i in za) | set('b%d' % j for j in zb)
+                want = [Sym(dict((m, c) for m, c in p_.terms.items() if not (set(m) & dead))) for p_ in gen]
+                if got != want and zero_ok:
+                    zero_ok, bad = False, (za, zb)
+        return table, (zero_ok, bad), None
+    except (minirust.NoEval, minirust.Proceed, TypeError, KeyError, IndexError) as ex:
+        return None, None, '%s: %s' % (type(ex).__name__, ex)
+
+
 MUL_REF = {(i, j): ((i + j) % 4, -1 if (i + j) >= 4 else 1) for i in range(4) for j in range(4)}
 
 
@@ -601,7 +769,7 @@ def _run_own(ck):
     res = d2_order(f)
     bad = [r for r in res if not r[1]]
     for case, ok, got, want, err in res:
-        ck.ob('R-ORDER', 'Dyadic::cmp/%s-%s/exp%+d/val%+d' % case, ok, ck.site(CMP),
+        ck.ob3('R-ORDER', 'Dyadic::cmp/%s-%s/exp%+d/val%+d' % case, ok, ck.site(CMP),
               err or ('for self %s, other %s, exponent order %+d, mantissa order %+d the comparison answers %s but the reals say %s' % (case + (_ordname(got), _ordname(want)))),
               sample={'case': str(case), 'answer': _ordname(got), 'expected': _ordname(want)})
     ck.floor('R-ORDER', len(res), 40)
@@ -687,11 +855,20 @@ def _run_own(ck):
     mk = [k for k, op, a, s in rops.op_impls(facts, lambda s: s.replace('&', '').strip() == S4) if op == 'Mul' and hir.find(facts['fns'][k]['hir'], 'For')]
     ck.ob('R-TABLE-scalar', 'mul/reference-impl', len(mk) == 1, 'scalar.rs', 'expected exactly one reference impl of the Z[omega] product, found %s' % mk)
     if len(mk) == 1:
-        tb, problems = mul_table(ck.fn(mk[0]))
-        ck.ob('R-TABLE-scalar', 'mul/understood', not problems, ck.site(mk[0]), 'product loop not understood: %s' % problems[:2])
+        tb, zero, err = mul_semantics(ck.fn(mk[0]))
+        if err is not None:
+            tb0, problems = mul_table(ck.fn(mk[0]))       # the syntactic reading of the two constant loops, when the evaluator declines
+            if not problems:
+                tb, zero, err = dict((ij, [(v[0], v[1])]) for ij, v in tb0.items()), (True, None), None
+        ck.ob3('R-TABLE-scalar', 'mul/understood', None if err is not None else True, ck.site(mk[0]), 'product not understood by the evaluator: %s' % err)
         for ij in sorted(MUL_REF):
-            ck.ob('R-TABLE-scalar', 'mul/term-%d-%d' % ij, tb.get(ij) == MUL_REF[ij], ck.site(mk[0]),
-                  'w^%d * w^%d is accumulated at (index, sign) %s, must be %s (w^4 = -1)' % (ij + (tb.get(ij), MUL_REF[ij])), sample={'term': str(ij), 'goes_to': str(tb.get(ij))})
+            got = None if tb is None else tb.get(ij, [])
+            ck.ob3('R-TABLE-scalar', 'mul/term-%d-%d' % ij, None if tb is None else got == [MUL_REF[ij]], ck.site(mk[0]),
+                   'w^%d * w^%d is accumulated at (index, coefficient) %s, must be exactly %s (w^4 = -1)' % (ij + (got, MUL_REF[ij])), sample={'term': str(ij), 'goes_to': str(got)})
+        extra = None if tb is None else sorted(str(k) for k in tb if k not in MUL_REF)
+        ck.ob3('R-TABLE-scalar', 'mul/no-other-terms', None if tb is None else not extra, ck.site(mk[0]), 'the product contains terms that are not a_i*b_j: %s' % extra)
+        ck.ob3('R-TABLE-scalar', 'mul/zero-skips', None if zero is None else zero[0], ck.site(mk[0]),
+               'with vanishing coefficients (self %s, rhs %s) the product differs from the full product specialised to them: a skipped zero must only skip zero terms' % (zero[1] if zero and zero[1] else ('', '')))
     fp = from_phase_table(ck.fn('<scalar::Scalar4 as std::convert::From<phase::Phase>>::from'))
     fpk = '<scalar::Scalar4 as std::convert::From<phase::Phase>>::from'
     if fp is None:
